@@ -149,9 +149,26 @@ func holdingName(h int) string {
 
 // c10Chain: submitter S = account 4 holds exactly the roles in h; the other slots go to accounts 0..3
 // (pending: account 7 or none).
-func c10Chain(rc *RunCtx, h int, otherPending bool) (*Engine, error) {
+// c10GenesisVariants: genesis states that validation accepts and transactions cannot always reach; who may do what
+// does not depend on them.
+var c10GenesisVariants = []string{"standard", "threshold-above-the-attester-count", "both-flags-paused", "no-attesters", "body-size-0-and-limit-0", "empty-registries"}
+
+func c10Chain(rc *RunCtx, h int, otherPending bool, variant int) (*Engine, error) {
 	S := Acct(UserIx)
 	e, err := StdEngine(rc, false, false, func(gs *ct.GenesisState, cfg *chain.Config) {
+		switch c10GenesisVariants[variant%len(c10GenesisVariants)] {
+		case "threshold-above-the-attester-count":
+			gs.SignatureThreshold = &ct.SignatureThreshold{Amount: uint32(len(gs.AttesterList) + 1 + variant%2)}
+		case "both-flags-paused":
+			gs.BurningAndMintingPaused.Paused, gs.SendingAndReceivingMessagesPaused.Paused = true, true
+		case "no-attesters":
+			gs.AttesterList = nil
+		case "body-size-0-and-limit-0":
+			gs.MaxMessageBodySize = &ct.MaxMessageBodySize{Amount: 0}
+			gs.PerMessageBurnLimitList = []ct.PerMessageBurnLimit{{Denom: "uusdc", Amount: sdkInt(0)}}
+		case "empty-registries":
+			gs.TokenPairList, gs.TokenMessengerList, gs.UsedNoncesList = nil, nil, nil
+		}
 		if h&1 != 0 {
 			gs.Owner = S
 		}
@@ -191,7 +208,11 @@ func runC10(rc *RunCtx) {
 				continue
 			}
 			for rep := 0; rep < rc.Pick(1, 3); rep++ {
-				e, err := c10Chain(rc, h, (h+ti+rep)%2 == 0)
+				variant := (h/2 + ti + rep) % len(c10GenesisVariants)
+				if h%2 == 0 && rep == 0 {
+					variant = 0 // half of the table on the standard genesis
+				}
+				e, err := c10Chain(rc, h, (h+ti+rep)%2 == 0, variant)
 				if err != nil {
 					rc.Cov.Inconclusive("c10 chain: " + err.Error())
 					continue
@@ -203,7 +224,8 @@ func runC10(rc *RunCtx) {
 				rc.Cov.Assert("C10.authorisation-oracle")
 				rc.Cov.Cell("C10_table", fmt.Sprintf("%s/%s/%v", at.Name, holdingName(h), map[bool]string{true: "ok", false: "fail"}[r.OK]))
 				rc.Cov.Distinct(fmt.Sprintf("c10|%s|%d|%v", at.Name, h, r.OK))
-				if r.OK != holds && r.TxExp != DontCare {
+				rc.Cov.Cell("C10_genesis_variants", c10GenesisVariants[variant]+"/"+map[bool]string{true: "holder", false: "non-holder"}[holds]+"/"+okWord(r.OK))
+				if r.OK != holds && r.TxExp != DontCare && !(holds && r.TxExp == MustFail) {
 					// also reported by the engine with the model's reason; this signature names the cell
 					e.viol([]string{"C10"}, "authorisation-oracle", fmt.Sprintf("C10:%s:role=%s:holds=%v:ok=%v", at.Name, at.Role, holds, r.OK),
 						fmt.Sprintf("%s submitted by an account holding {%s}: success=%v, expected %v", at.Name, holdingName(h), r.OK, holds), e.caseOf(&tx, ""))
@@ -279,12 +301,20 @@ func runC10(rc *RunCtx) {
 				func(f string) sdk.Msg { return &ct.MsgUnpauseBurningAndMinting{From: f} },
 				func(f string) sdk.Msg { return &ct.MsgPauseSendingAndReceivingMessages{From: f} },
 				func(f string) sdk.Msg { return &ct.MsgUnpauseSendingAndReceivingMessages{From: f} },
-				func(f string) sdk.Msg { return &ct.MsgSetMaxBurnAmountPerMessage{From: f, LocalToken: "uusdc", Amount: mkInt(big.NewInt(500))} },
-				func(f string) sdk.Msg { return &ct.MsgAddRemoteTokenMessenger{From: f, DomainId: 0, Address: s.Messengers[0]} },
-				func(f string) sdk.Msg { return &ct.MsgLinkTokenPair{From: f, RemoteDomain: 0, RemoteToken: Token(0), LocalToken: "uusdc"} },
+				func(f string) sdk.Msg {
+					return &ct.MsgSetMaxBurnAmountPerMessage{From: f, LocalToken: "uusdc", Amount: mkInt(big.NewInt(500))}
+				},
+				func(f string) sdk.Msg {
+					return &ct.MsgAddRemoteTokenMessenger{From: f, DomainId: 0, Address: s.Messengers[0]}
+				},
+				func(f string) sdk.Msg {
+					return &ct.MsgLinkTokenPair{From: f, RemoteDomain: 0, RemoteToken: Token(0), LocalToken: "uusdc"}
+				},
 				func(f string) sdk.Msg { return &ct.MsgEnableAttester{From: f, Attester: firstAttester(s)} },
 				func(f string) sdk.Msg { return &ct.MsgRemoveRemoteTokenMessenger{From: f, DomainId: 4242} },
-				func(f string) sdk.Msg { return &ct.MsgUnlinkTokenPair{From: f, RemoteDomain: 4242, RemoteToken: Token(0), LocalToken: "uusdc"} },
+				func(f string) sdk.Msg {
+					return &ct.MsgUnlinkTokenPair{From: f, RemoteDomain: 4242, RemoteToken: Token(0), LocalToken: "uusdc"}
+				},
 				func(f string) sdk.Msg { return &ct.MsgDisableAttester{From: f, Attester: AttesterPool[9].Spell(0)} },
 			}
 			for ni, mk := range noops {
@@ -796,6 +826,16 @@ var c12Flows = []string{"send", "send-with-caller", "deposit", "deposit-with-cal
 	"receive-other-by-pauser-as-caller", "receive-mint-by-pauser-as-caller", "send-by-pauser", "receive-other-by-owner-as-caller", "receive-mint-by-owner-as-caller", "send-by-owner",
 	"receive-other-by-am-as-caller", "receive-mint-by-am-as-caller", "send-by-am", "receive-other-by-tc-as-caller", "receive-mint-by-tc-as-caller", "send-by-tc"}
 
+// adminAvailable: an administrative request that the model expects to succeed must succeed whatever the flags are.
+func adminAvailable(e *Engine, tx *Tx, r *Report, sr, bm bool) {
+	e.Rc.Cov.Assert("C12.admin-available-while-paused")
+	e.Rc.Cov.Cell("C12_admin_args", fmt.Sprintf("sr=%v,bm=%v/%s/%s", sr, bm, kindsOf(r), okWord(r.OK)))
+	if !r.OK && r.TxExp == MustSucceed {
+		e.viol([]string{"C12"}, "pause-matrix", fmt.Sprintf("C12:admin-unavailable:%s:sr=%v:bm=%v", kindsOf(r), sr, bm),
+			fmt.Sprintf("administrative request refused with flags sr=%v bm=%v although it is valid: %s", sr, bm, trunc(r.Res.Log, 200)), e.caseOf(tx, ""))
+	}
+}
+
 func runC12(rc *RunCtx) {
 	defer ProbeHistory(rc, rc.Pick(200, 800), false)
 	// the pauser's four transactions do not depend on the attester configuration: one key under two spellings with
@@ -1001,9 +1041,28 @@ func runC12(rc *RunCtx) {
 					continue
 				}
 				role := map[string]string{"owner": e.M.Owner, "am": e.M.AM, "pauser": e.M.Pauser, "tc": e.M.TC}[at.Role]
-				r := e.Exec(Tx{Msgs: msgs1(at.Make(e.M, role, ti+fs)), Note: "C12 admin while paused"})
+				tx := Tx{Msgs: msgs1(at.Make(e.M, role, ti+fs)), Note: "C12 admin while paused"}
+				r := e.Exec(tx)
 				rc.Cov.Cell("C12_admin", fmt.Sprintf("sr=%v,bm=%v/%s/%v", sr, bm, at.Name, r.OK))
+				adminAvailable(e, &tx, r, sr, bm)
 			}
+			// argument values at their boundaries: body sizes around a burn message, thresholds 1..n, limits 0 / 1 / huge
+			for _, size := range []uint64{0, 1, 131, 132, 133, 8000, 1 << 40, 4000} {
+				tx := Tx{Msgs: msgs1(&ct.MsgUpdateMaxMessageBodySize{From: e.M.Owner, MessageSize: size}), Note: "C12 admin while paused: body size"}
+				adminAvailable(e, &tx, e.Exec(tx), sr, bm)
+			}
+			for _, lim := range []*big.Int{big.NewInt(0), big.NewInt(1), Max256, big.NewInt(1_000_000)} {
+				tx := Tx{Msgs: msgs1(&ct.MsgSetMaxBurnAmountPerMessage{From: e.M.TC, LocalToken: "uusdc", Amount: mkInt(lim)}), Note: "C12 admin while paused: burn limit"}
+				adminAvailable(e, &tx, e.Exec(tx), sr, bm)
+			}
+			for t := uint32(1); t <= uint32(len(e.M.Attesters)); t++ {
+				if t == e.M.Threshold {
+					continue
+				}
+				tx := Tx{Msgs: msgs1(&ct.MsgUpdateSignatureThreshold{From: e.M.AM, Amount: t}), Note: "C12 admin while paused: threshold"}
+				adminAvailable(e, &tx, e.Exec(tx), sr, bm)
+			}
+			e.Exec(Tx{Msgs: msgs1(&ct.MsgUpdateSignatureThreshold{From: e.M.AM, Amount: 2}), Note: "C12 restore threshold"})
 			e.Exec(Tx{Msgs: msgs1(&ct.MsgUpdateMaxMessageBodySize{From: e.M.Owner, MessageSize: 8000}), Note: "C12 restore body size"})
 			// ownership hand-over and pauser update while paused
 			own := e.M.Owner
@@ -1206,6 +1265,56 @@ func runC13(rc *RunCtx) {
 			// by a non-manager
 			step(&ct.MsgDisableAttester{From: Acct(OwnerIx), Attester: AttesterPool[keys[0]].Spell(keys[0] % 4)}, "disable-by-non-manager")
 			step(&ct.MsgUpdateSignatureThreshold{From: Acct(OwnerIx), Amount: 1}, "threshold-by-non-manager")
+		}
+	}
+	// identifiers that a lenient hex reader accepts and a strict one refuses (odd number of digits, trailing garbage,
+	// blanks): once enabled they are entries like any other - they count towards n, and disabling one is refused at the
+	// threshold and when it is the last entry
+	if rc.Shard == 1%rc.NShards {
+		oddIDs := []string{"0x4a1b2", "4a1b2", "0x12zz", "12zz", "0x1", "0X0g", " 0x12", "0x12 ", "0x12\n", "0x04" + strings.Repeat("ab", 64) + "z", "0x04" + strings.Repeat("cd", 63) + "c", "zz", "0xzz", "0x", "x"}
+		for gi := 0; gi < 2; gi++ {
+			e, err := StdEngine(rc, false, false, func(gs *ct.GenesisState, cfg *chain.Config) {
+				gs.AttesterList = []ct.Attester{{Attester: AttesterPool[0].Spell(0)}, {Attester: AttesterPool[1].Spell(1)}}
+				if gi == 1 { // only odd identifiers, installed by genesis
+					gs.AttesterList = []ct.Attester{{Attester: oddIDs[0]}}
+				}
+				gs.SignatureThreshold = &ct.SignatureThreshold{Amount: 1}
+			})
+			if err != nil {
+				rc.Cov.Inconclusive("odd identifiers: " + err.Error())
+				continue
+			}
+			am := e.M.AM
+			ostep := func(m sdk.Msg, kind string) bool {
+				r := e.Exec(Tx{Msgs: msgs1(m), Note: fmt.Sprintf("C13 odd identifiers (%d enabled, threshold %d): %s", len(e.M.Attesters), e.M.Threshold, kind)})
+				rc.Cov.Cell("C13_odd_identifiers", kind+"/"+okWord(r.OK))
+				return r.OK
+			}
+			if gi == 1 {
+				ostep(&ct.MsgDisableAttester{From: am, Attester: oddIDs[0]}, "disable-the-last-entry")
+			}
+			for _, id := range oddIDs {
+				ostep(&ct.MsgEnableAttester{From: am, Attester: id}, "enable")
+				if !e.M.Attesters[id] {
+					continue
+				}
+				n := uint32(len(e.M.Attesters))
+				ostep(&ct.MsgUpdateSignatureThreshold{From: am, Amount: n}, "threshold-n")
+				ostep(&ct.MsgDisableAttester{From: am, Attester: id}, "disable-at-threshold")
+				for other := range e.M.Attesters {
+					if other != id {
+						ostep(&ct.MsgDisableAttester{From: am, Attester: other}, "disable-another-at-threshold")
+						break
+					}
+				}
+				if n > 1 {
+					ostep(&ct.MsgUpdateSignatureThreshold{From: am, Amount: n - 1}, "threshold-n-1")
+					if gi == 0 || len(id)%2 == 0 {
+						ostep(&ct.MsgDisableAttester{From: am, Attester: id}, "disable-below-threshold")
+					}
+				}
+			}
+			e.FullQueryCheck(nil, []uint64{1, 3, 100})
 		}
 	}
 	// a large attester set (more entries than any page or batch size a list reader might use): the count that the
